@@ -177,24 +177,12 @@ theorem producer_stop_reason (cfg : Cfg) : ∀ (ticks : List Tick) (pos : Nat)
 
 /-! ## Producer: nothing is lost or duplicated at a turn boundary -/
 
-theorem extPreflight_off {cfg : Cfg} (h : cfg.maxExt = 0) (c : Coll) (te : TickEnv) (a : Nat) :
-    extPreflight cfg c te a = false := by
-  simp [extPreflight, h]
-
-theorem has_data {c : Coll} (h1 : ¬(!c.finished && c.dataIdx.isNone) = true) (h3 : ¬c.finished = true) :
-    ¬ c.dataIdx = none := by
-  intro hn
-  apply h1
-  cases hf : c.finished
-  · simp [hn]
-  · exact absurd hf h3
-
-/-- One turn against the whole stream (`fullRun`), with no external cap in force: a turn that ends
-the stream delivered exactly the whole rest of the stream with the same outcome; a turn that stops
-early delivered a proper prefix made of whole cycles, and the rest of the stream is exactly the
-stream of the state it left behind. -/
-theorem turn_is_prefix (cfg : Cfg) (hext : cfg.maxExt = 0) : ∀ (ticks : List Tick) (pos : Nat)
-    (first : Option Meta) (nData ext : Nat) (envs : List TickEnv) (body : Nat) (sizes : List Nat),
+/-- **turn_is_prefix**: one turn against the whole stream (`fullRun`), with no external cap in
+force: a turn that ends the stream delivered exactly the whole rest of the stream with the same
+outcome; a turn that stops early delivered a proper prefix made of whole cycles, and the rest of
+the stream is exactly the stream of the state it left behind. (Proof in `Vgi.Proofs.HttpStream`.) -/
+theorem turn_is_prefix (cfg : Cfg) (hext : cfg.maxExt = 0) (ticks : List Tick) (pos : Nat)
+    (first : Option Meta) (nData ext : Nat) (envs : List TickEnv) (body : Nat) (sizes : List Nat) :
     (((produceLoop cfg ticks pos first nData ext envs body sizes).finished = true ∨
       (produceLoop cfg ticks pos first nData ext envs body sizes).err.isSome = true) ∧
      (produceLoop cfg ticks pos first nData ext envs body sizes).out = (fullRun ticks).1 ∧
@@ -204,41 +192,8 @@ theorem turn_is_prefix (cfg : Cfg) (hext : cfg.maxExt = 0) : ∀ (ticks : List T
      (produceLoop cfg ticks pos first nData ext envs body sizes).err = none ∧
      ∃ k, 0 < k ∧ (produceLoop cfg ticks pos first nData ext envs body sizes).pos = pos + k ∧
        (fullRun ticks).1 = (produceLoop cfg ticks pos first nData ext envs body sizes).out ++ (fullRun (ticks.drop k)).1 ∧
-       (fullRun ticks).2 = (fullRun (ticks.drop k)).2) := by
-  intro ticks pos first nData ext envs body sizes
-  fun_induction produceLoop cfg ticks pos first nData ext envs body sizes with
-  | case1 => exact Or.inl ⟨Or.inl rfl, rfl, rfl, rfl⟩
-  | case2 t rest pos first nData ext envs body sizes ev c e hr =>
-    exact Or.inl ⟨Or.inr rfl, by simp [fullRun, hr], by simp [fullRun, hr], by simp [fullRun, hr]⟩
-  | case3 t rest pos first nData ext envs body sizes ev c hr h1 =>
-    exact Or.inl ⟨Or.inr rfl, by simp [fullRun, hr, h1], by simp [fullRun, hr, h1], by simp [fullRun, hr, h1]⟩
-  | case4 t rest pos first nData ext envs body sizes ev te c hr h1 h2 =>
-    rw [extPreflight_off hext] at h2; cases h2
-  | case5 t rest pos first nData ext envs body sizes ev te c hr h1 h2 flushed nData' body' up h3 =>
-    exact Or.inl ⟨Or.inl rfl, by simp [fullRun, hr, h1, h3, flushed], by simp [fullRun, hr, h1, h3],
-      by simp [fullRun, hr, h1, h3]⟩
-  | case6 t rest pos first nData ext envs body sizes ev te c hr h1 h2 flushed nData' body' up h3 h4 =>
-    have hd := has_data h1 h3
-    exact Or.inr ⟨rfl, rfl, 1, Nat.one_pos, rfl, by simp [fullRun, hr, h1, h3, hd, flushed], by simp [fullRun, hr, h1, h3, hd]⟩
-  | case7 t rest pos first nData ext envs body sizes ev te c hr h1 h2 flushed nData' body' up h3 h4 h5 =>
-    have hd := has_data h1 h3
-    exact Or.inr ⟨rfl, rfl, 1, Nat.one_pos, rfl, by simp [fullRun, hr, h1, h3, hd, flushed], by simp [fullRun, hr, h1, h3, hd]⟩
-  | case8 t rest pos first nData ext envs body sizes ev te c hr h1 h2 flushed nData' body' up h3 h4 h5 r ih =>
-    have hd := has_data h1 h3
-    rcases ih with ⟨a1, a2, a3, a4⟩ | ⟨b1, b2, k, hk, b3, b4, b5⟩
-    · refine Or.inl ⟨a1, ?_, ?_, ?_⟩
-      · show flushed ++ r.out = _
-        simp [fullRun, hr, h1, h3, hd, flushed]; exact a2
-      · show r.finished = _
-        simp [fullRun, hr, h1, h3, hd]; exact a3
-      · show r.err = _
-        simp [fullRun, hr, h1, h3, hd]; exact a4
-    · refine Or.inr ⟨b1, b2, k + 1, Nat.succ_pos _, ?_, ?_, ?_⟩
-      · show r.pos = _
-        rw [b3]; omega
-      · show _ = (flushed ++ r.out) ++ _
-        simp [fullRun, hr, h1, h3, hd, flushed]; exact b4
-      · simp [fullRun, hr, h1, h3, hd]; exact b5
+       (fullRun ticks).2 = (fullRun (ticks.drop k)).2) :=
+  produceLoop_prefix cfg hext ticks pos first nData ext envs body sizes
 
 /-- A client that follows the continuation tokens of a producer stream from position `pos` (the
 remaining script is `ticks`): a chain of turns, each started from the state the previous one left
